@@ -2,9 +2,11 @@ pub mod common;
 pub mod c05;
 pub mod c08;
 pub mod c10;
+pub mod c11;
 pub mod c12;
 pub mod c13;
 pub mod c16;
+pub mod c17;
 
 use crate::spec::Scenario;
 
@@ -13,9 +15,11 @@ pub fn scenario(id: &str) -> Option<Box<dyn Scenario>> {
         "C05" => Some(Box::new(c05::C05)),
         "C08" => Some(Box::new(c08::C08)),
         "C10" => Some(Box::new(c10::C10)),
+        "C11" => Some(Box::new(c11::C11)),
         "C12" => Some(Box::new(c12::C12)),
         "C13" => Some(Box::new(c13::C13)),
         "C16" => Some(Box::new(c16::C16)),
+        "C17" => Some(Box::new(c17::C17)),
         _ => None,
     }
 }
